@@ -189,7 +189,7 @@ def replay_one(scn, rec, opts):
                     res["status"] = "truncated"
                     res["why"] = "clause-too-large"
                     break
-                if op["op"] == "load" and scn.get("may_refuse_names") and type(e).__name__ == "CompilerError" and "not an identifier" in str(e):
+                if op["op"] == "load" and scn.get("may_refuse_names") and type(e).__name__.startswith("Compiler"):
                     # the compiler may refuse a predicate name it cannot express; then nothing is loaded
                     res["status"] = "truncated"
                     res["why"] = "compiler-refuses-name"
